@@ -60,8 +60,13 @@ type Map struct {
 func (m *Map) sync(kind string) {
 	s := S
 	if m.owner != s {
-		// a package-level map of the code under test starts every simulated run empty (new process)
-		*m = Map{owner: s}
+		if m.owner != nil && s.cfg.KeepGlobals {
+			// several simulated runs model one process (mapsim): package-level state carries over
+			m.owner, m.vc = s, nil
+		} else {
+			// a package-level map of the code under test starts every simulated run empty (new process)
+			*m = Map{owner: s}
+		}
 	}
 	g := s.cur
 	g.vc.join(m.vc)
